@@ -99,6 +99,23 @@ def run_witnesses(ctx):
             ctx.known_hits[f['id']] = ctx.known_hits.get(f['id'], 0) + 1
         elif p.returncode != 0:
             raise RuntimeError('witness %s ended with status %s: %s' % (w, p.returncode, p.stdout[-400:]))
+    # witnesses of defects that were REPAIRED (known_findings.json "regressions"): if one reproduces again it is a
+    # violation like any other, with the witness program as its replay
+    for f in lib.load_known().get('regressions', []):
+        if f.get('property') != ctx.prop:
+            continue
+        path = os.path.join(lib.VERIF, 'findings', f['witness_script'])
+        tmpd = os.path.join(lib.WORK, 'tmp')
+        os.makedirs(tmpd, exist_ok=True)
+        p = subprocess.run([lib.PY, path], cwd=tmpd, env=dict(env, TMPDIR=tmpd), stdout=subprocess.PIPE,
+                           stderr=subprocess.STDOUT, text=True, errors='replace', timeout=600)
+        ran[f['id']] = p.returncode
+        ctx.count(('regression-witness', f['id']), True)
+        if p.returncode == 1 and 'VIOLATED' in p.stdout:
+            ctx.fail({'witness_program': 'findings/' + f['witness_script'], 'output': p.stdout[-1500:]},
+                     'a repaired defect is back (%s): %s' % (f.get('commit', ''), f['what']))
+        elif p.returncode != 0:
+            raise RuntimeError('witness %s ended with status %s: %s' % (f['witness_script'], p.returncode, p.stdout[-400:]))
     if ran:
         ctx.extra['witness_programs'] = ran
 
